@@ -269,12 +269,16 @@ fn scale_threshold_f64(d: &mut Draw) -> Outcome {
         3 => (sign * d.f64_log(1e-12, 1e-6), "negligible"),
         4 => (sign * 1e-6 * (1.0 + d.f64_log(1e-9, 1.0)), "just-above"),
         5 => (sign * d.f64_log(2e-6, 1e-3), "small"),
+        // a scale so large that its reciprocal is a subnormal number: still a finite, invertible scale
+        6 => (sign * d.f64_log(1e300, 1.7e308), "huge"),
         _ => (sign * d.f64_log(1e-3, 50.0), "ordinary"),
     };
     let u = f_unit_quat(d);
     let disp = Vector3::from(f_vec3(d, -10.0, 10.0));
-    let p = Point3::from(f_vec3(d, -10.0, 10.0));
-    let v = Vector3::from(f_vec3(d, -10.0, 10.0));
+    // (points and vectors small enough for their images to be finite)
+    let k = if cls == "huge" { 1e-300 } else { 1.0 };
+    let p = Point3::from(f_vec3(d, -10.0, 10.0)) * k;
+    let v = Vector3::from(f_vec3(d, -10.0, 10.0)) * k;
     d.note("scale", &scale);
     d.note("rot", &u);
     d.note("disp,p,v", &(disp, p, v));
@@ -296,6 +300,8 @@ fn scale_threshold_f64(d: &mut Draw) -> Outcome {
                 let e = f64::EPSILON;
                 // vectors: pure rotation and scaling, no cancellation
                 let back = i.transform_vector(t.transform_vector(v));
+                // (a subnormal reciprocal scale keeps fewer bits)
+                let e = if cls == "huge" { 1e-6 } else { e };
                 let tolv = 64.0 * e * v.magnitude();
                 ensure!((back - v).magnitude() <= tolv, "inverse-undoes-vector", "{}: inv(T(v)) misses v by {:e} (scale {:e})", $who, (back - v).magnitude(), scale);
                 let direct = iv.unwrap();
@@ -486,7 +492,7 @@ pub fn property() -> Property {
     add!("matrix3-Fp", "Fp", m3_exact::<Fp>, 3000, 200_000, 192, &[("generic", 100), ("singular", 50)], "linear parts with all entries non-zero");
     add!("matrix_compose-f64", "f64", matrix_compose_f64, 6000, 400_000, 96, &[("right-factor-nearly-identity", 200), ("right-factor-identity", 100), ("right-factor-generic", 200)], "every generated pair of affine matrices");
     add!("scale_threshold-f64", "f64", scale_threshold_f64, 10000, 500_000, 64,
-        &[("zero", 100), ("negligible", 100), ("just-above", 50), ("small", 50), ("ordinary", 200)], "every generated transform; scale classes zero / negligible / just above 1e-6 / small / ordinary required");
+        &[("zero", 100), ("negligible", 100), ("just-above", 50), ("small", 50), ("huge", 50), ("ordinary", 150)], "every generated transform; scale classes zero / negligible / just above 1e-6 / small / ordinary required");
     add!("matrix_small_determinant-f64", "f64", matrix_small_det_f64, 8000, 400_000, 64,
         &[("minute", 100), ("small", 100), ("just-above-1e-6", 100), ("ordinary", 200)], "every generated transform; determinant classes minute / small / just above the Decomposed threshold / ordinary required");
     Property {
